@@ -44,8 +44,8 @@ CONSTANTS Scripts,      \* set of scripts (sequences of call records) to explore
           Deviations    \* subset of AllDeviations
 
 None == -1
-NaN    == <<[h |-> 0, tag |-> "nan"]>>      \* data of a field that holds NaN
-NoLast == <<[h |-> 0, tag |-> "nolast"]>>   \* the solver object has no multistep history
+NaN    == <<[h |-> 0, tag |-> "nan", m |-> "g"]>>      \* data of a field that holds NaN
+NoLast == <<[h |-> 0, tag |-> "nolast", m |-> "g"]>>   \* the solver object has no multistep history
 
 AllDeviations == {"SaveOnePerIter",       \* D3: `if` instead of `while` around the snapshot branch
                   "NoPreSave",            \* D4/D16: no treatment of save times equal to the start
@@ -53,7 +53,8 @@ AllDeviations == {"SaveOnePerIter",       \* D3: `if` instead of `while` around 
                   "SideStepWritesHidden", \* D2a: snapshot steps overwrite the multistep history
                   "HiddenSurvivesSolve",  \* D2b: solve() does not forget the multistep history
                   "StaleItTag",           \* D5: the final state keeps the caller's `it`
-                  "StaleCfl"}             \* seeded: the time step of the first call is cached on the solver object
+                  "StaleCfl",             \* seeded: the time step of the first call is cached on the solver object
+                  "StickyDirective"}      \* seeded: the dtlocal directive of an earlier call stays on the solver object
 
 VARIABLES kind, prof,   \* integrator kind and time-step profile of this solver object (fixed per behaviour)
           script,       \* calls still to make
@@ -88,22 +89,27 @@ Dt(p, t) == CASE p = "c4"  -> 4
 (* one integrator step on terms; returns [t, d, last]                        *)
 Tag(lst, d) == IF lst = NoLast THEN "none" ELSE IF lst = d THEN "own" ELSE "foreign"
 
-StepTerm(k, t, d, h, lst) ==
+(* m = "g": one scalar step for every cell; m = "l": the per-cell step array of the dtlocal directive (whose minimum is h) *)
+StepTermM(k, t, d, h, lst, m) ==
   IF d = NaN THEN [t |-> t + h, d |-> NaN, last |-> lst]
   ELSE CASE k = "onestep" ->
-              [t |-> t + h, d |-> IF h = 0 THEN d ELSE Append(d, [h |-> h, tag |-> "na"]), last |-> lst]
+              [t |-> t + h, d |-> IF h = 0 THEN d ELSE Append(d, [h |-> h, tag |-> "na", m |-> m]), last |-> lst]
          [] k = "implicit" ->     \* divides by dt: a zero-length step yields NaN
-              [t |-> t + h, d |-> IF h = 0 THEN NaN ELSE Append(d, [h |-> h, tag |-> "na"]), last |-> lst]
+              [t |-> t + h, d |-> IF h = 0 THEN NaN ELSE Append(d, [h |-> h, tag |-> "na", m |-> m]), last |-> lst]
          [] k = "gear" ->
               IF h = 0 \/ lst = NaN THEN [t |-> t + h, d |-> NaN, last |-> NaN]
               ELSE IF lst = NoLast /\ "GearDoubleAdd" \in Deviations
-                   THEN LET nd == Append(d, [h |-> h, tag |-> "none2x"])
+                   THEN LET nd == Append(d, [h |-> h, tag |-> "none2x", m |-> m])
                         IN [t |-> t + 2*h, d |-> nd, last |-> nd]
-                   ELSE LET nd == Append(d, [h |-> h, tag |-> Tag(lst, d)])
+                   ELSE LET nd == Append(d, [h |-> h, tag |-> Tag(lst, d), m |-> m])
                         IN [t |-> t + h, d |-> nd, last |-> nd]
+StepTerm(k, t, d, h, lst) == StepTermM(k, t, d, h, lst, "g")
 
 CflNow == IF "StaleCfl" \in Deviations /\ hist # <<>> THEN hist[1].cfl ELSE call.cfl
 DtNow(t) == CflNow * Dt(prof, t)
+(* the directives of a call are that call's: the main step uses the per-cell array iff THIS call asked for dtlocal *)
+DtlNow == call.dtl \/ ("StickyDirective" \in Deviations /\ \E k \in 1..Len(hist) : hist[k].dtl)
+ModeNow == IF DtlNow THEN "l" ELSE "g"
 
 EffTot(c) == IF c.tot # None THEN c.tot
              ELSE IF Len(c.tsave) > 0 THEN c.tsave[Len(c.tsave)] ELSE None
@@ -196,7 +202,7 @@ SideStep ==
 
 MainStep ==
   /\ pc = "main"
-  /\ LET s == StepTerm(kind, qn.t, qn.d, dt, last)
+  /\ LET s == StepTermM(kind, qn.t, qn.d, dt, last, ModeNow)      \* (snapshots are always taken with one scalar step)
      IN /\ qn' = [t |-> s.t, it |-> qn.it, d |-> s.d]
         /\ last' = s.last
         /\ stime' = s.t
@@ -216,7 +222,7 @@ CheckEnd ==
 
 (* what a call leaves behind, in the vocabulary shared with the conformance judge (Contract.tla) *)
 Outcome == [op |-> call.op, t0 |-> arg.t, it0 |-> arg.it, d0 |-> arg.d, tsave |-> call.tsave,
-            tot |-> call.tot, maxit |-> call.maxit, freqs |-> call.freqs, cfl |-> call.cfl,
+            tot |-> call.tot, maxit |-> call.maxit, freqs |-> call.freqs, cfl |-> call.cfl, dtl |-> call.dtl,
             nit |-> nit, totnit |-> itstart + nit, itstart |-> itstart,
             tfin |-> qn.t, dfin |-> qn.d, traj |-> traj, res |-> results,
             mon |-> mon, monAll |-> monAcc \o mon,
